@@ -124,6 +124,7 @@ def harnesses(tier):
         hs.append(Sort(["T", "i"], 2))
         hs.append(Sort(["us"], 3))          # microsecond ticks reach beyond 2**53 within years 1..9999
         hs.append(Sort(["td"], 2)); hs.append(Sort(["ns"], 2))
+        hs.append(Sort(["D"], 4))           # four rows: a tie, a missing value and a larger value together (descending dates go through rank)
         hs.append(Prepared(Sort(["U"], 2))); hs.append(Prepared(Sort(["T", "i"], 2)))
     else:
         for k in ("U", "T", "f", "i"): hs.append(Prepared(Sort([k], 3)))
